@@ -52,10 +52,17 @@ type config struct {
 }
 
 func tierConfigs(thorough bool) []config {
+	l := []config{{allNames[:3], 7}, {allNames[:4], 5}}
 	if thorough {
-		return []config{{allNames[:4], 7}, {allNames[:5], 5}}
+		l = []config{{allNames[:4], 7}, {allNames[:5], 5}}
 	}
-	return []config{{allNames[:3], 7}, {allNames[:4], 5}}
+	// type names are arbitrary strings: names that contain what an implementation might use
+	// to join two names into one key ("a", "c", "a<sep>b", "b<sep>c": the pairs (a, b<sep>c) and
+	// (a<sep>b, c) join to the same text), every sequence of three operations
+	for _, sep := range []string{"->", "=>", ":", "/", "|", ",", " ", "\x00", ">", "-"} {
+		l = append(l, config{[]string{"a", "c", "a" + sep + "b", "b" + sep + "c"}, 3})
+	}
+	return l
 }
 
 // alphabet, simplest first: valid-looking registrations, clears, then the malformed
@@ -1270,6 +1277,7 @@ func run(c *h.Check) {
 	for _, sc := range failingScenarios() {
 		c.Explore(sc, bound, 100000, false)
 	}
+	longRings(c)
 }
 
 func replay(c *h.Check, rf *h.ReplayFile) []vrt.Violation {
@@ -1285,6 +1293,15 @@ func replay(c *h.Check, rf *h.ReplayFile) []vrt.Violation {
 			}
 		}
 		vrt.MachineryFault("unknown scenario %q", rf.Scenario)
+	}
+	var rg struct {
+		Ring int `json:"ring"`
+	}
+	if json.Unmarshal(rf.Ops, &rg) == nil && rg.Ring > 0 {
+		if msg := ringCase(rg.Ring); msg != "" {
+			return []vrt.Violation{{Kind: "termination", Sig: rf.Sig, Detail: msg}}
+		}
+		return nil
 	}
 	var tc termCase
 	if err := json.Unmarshal(rf.Ops, &tc); err != nil {
